@@ -183,6 +183,13 @@ func c07(tier string, args []string) int {
 		escTasks = append(escTasks, requests.SigningTask{MessageID: fmt.Sprintf("esc-%02d", i), File: strings.Repeat("&", 1000) + fmt.Sprint(i), Payload: []byte(fmt.Sprintf("payload %d", i))})
 	}
 	jobs = append(jobs, job{n: 3, t: 2, cfgs: mk(3, 2, []Batch{{ID: "batch-escaped-names", Tasks: escTasks}}, [][]int{nil}, none)})
+	// every node lags (a poll consumes the node's whole backlog), and the proposer - whose operator
+	// never answers - may propose the second batch before it has seen anything of the first: the reconstruction broadcasts of batch 1 can all
+	// land behind the proposal of batch 2
+	{
+		one := []Batch{{ID: "batch-a", Tasks: world.SimpleTasks("ba", []byte("payload a"))}, {ID: "batch-b", Tasks: world.SimpleTasks("bb", []byte("payload b"))}}
+		jobs = append(jobs, job{n: 3, t: 2, cfgs: []SignCfg{{N: 3, T: 2, Batches: one, Proposers: []int{2}, Silent: []int{2}, Lag: []int{0, 1, 2}, LagWhole: true, MaxStates: 400000}}})
+	}
 	// ... and one file of the largest size a proposal can carry (the reconstruction broadcast
 	// repeats the payload in a slightly longer envelope)
 	if pl := largestProposablePayload(); pl != nil {
